@@ -25,7 +25,9 @@ def sh(cmd, cwd=None, env=None, timeout=3600):
 
 
 def main():
-    ids = sys.argv[1:] or sorted(os.listdir(os.path.join(VERIF, "seeded")))
+    table_only = "--table-only" in sys.argv
+    args = [a for a in sys.argv[1:] if not a.startswith("--")]
+    ids = [] if table_only else (args or sorted(os.listdir(os.path.join(VERIF, "seeded"))))
     head = sh("git -C %s log --format=%%h -1" % REPO)[1].strip().splitlines()[-1]
     if sh("git -C %s diff --quiet" % REPO)[0] != 0:
         print("/repo has uncommitted changes")
@@ -34,10 +36,11 @@ def main():
     results = json.load(open(out_path)) if os.path.exists(out_path) else {}
     wt = tempfile.mkdtemp(prefix="seedwt_")
     os.rmdir(wt)
-    rc, o = sh("git -C %s worktree add --detach %s HEAD" % (REPO, wt))
-    if rc != 0:
-        print(o)
-        return 2
+    if not table_only:
+        rc, o = sh("git -C %s worktree add --detach %s HEAD" % (REPO, wt))
+        if rc != 0:
+            print(o)
+            return 2
     env = dict(os.environ, PYTHONPATH=wt, PYTHONHASHSEED="0", PYTHONDONTWRITEBYTECODE="1")
     try:
         for sid in ids:
@@ -85,8 +88,9 @@ def main():
             json.dump(meta, open(meta_p, "w"), indent=1)
             json.dump(results, open(out_path, "w"), indent=1)
     finally:
-        sh("git -C %s worktree remove --force %s" % (REPO, wt))
-        sh("git -C %s worktree prune" % REPO)
+        if not table_only:
+            sh("git -C %s worktree remove --force %s" % (REPO, wt))
+            sh("git -C %s worktree prune" % REPO)
     # table
     rows = ["| change | demo clean / patched | tests with patch | check | first violation reported |", "|---|---|---|---|---|"]
     for sid in sorted(results):
@@ -96,14 +100,19 @@ def main():
             continue
         rows.append("| %s | %s / %s | %s | %s | %s |" % (
             sid, "pass" if r["demo_clean_rc"] == 0 else "FAIL", "fail" if r["demo_patched_rc"] != 0 else "PASS",
-            r["tests_with_patch"].replace("|", "/"), "caught (exit %d, %d)" % (r["check_rc"], r["violations"]) if r["violations"] else "MISSED",
+            r["tests_with_patch"].replace("|", "/"),
+            "caught (exit %d, %d)" % (r["check_rc"], r["violations"]) if r["violations"]
+            else ("no longer a breaking change at this HEAD: its own demo passes with the patch (see section 8)" if r["demo_patched_rc"] == 0 else "MISSED"),
             r["first_violation"].replace("|", "/")))
     p = os.path.join(VERIF, "DESIGN.md")
     s = open(p).read()
     a, b = s.index("<!-- SEEDED-TABLE-BEGIN -->"), s.index("<!-- SEEDED-TABLE-END -->")
     caught = sum(1 for r in results.values() if r.get("violations"))
+    breaking = sum(1 for r in results.values() if r.get("applies") and r.get("demo_patched_rc") != 0)
+    heads = sorted({r["head"] for r in results.values()})
     txt = ("<!-- SEEDED-TABLE-BEGIN -->\nRe-verified at /repo HEAD %s by tools/seed_pass.py (scratch worktree for demo and test suite; the check runs on /repo with "
-           "the patch applied and reverted). %d of %d caught by the property's own quick check.\n\n" % (head, caught, len(results))) + "\n".join(rows) + "\n"
+           "the patch applied and reverted; never committed there). %d of the %d changes that still break their property at HEAD are caught by the property's own "
+           "quick check.\n\n" % (" / ".join(heads), caught, breaking)) + "\n".join(rows) + "\n"
     open(p, "w").write(s[:a] + txt + s[b:])
     return 0
 
